@@ -16,6 +16,7 @@ mod c15;
 mod c07;
 mod sock;
 mod c08;
+mod c06;
 
 use std::io::{BufRead, Write};
 
@@ -64,6 +65,7 @@ fn lookup(id: &str) -> Option<(&'static str, Gen, Exec)> {
         "C15" => Some(("C15", c15::generate, c15::exec)),
         "C07" => Some(("C07", c07::generate, c07::exec)),
         "C08" => Some(("C08", c08::generate, c08::exec)),
+        "C06" => Some(("C06", c06::generate, c06::exec)),
         _ => None,
     }
 }
